@@ -201,6 +201,8 @@ pub struct Importer<'a, R, U> {
     rcrefs: HashMap<PlainRef, AnySync>,
     // ptr of old -> (old, new)
     shared: HashMap<usize, (AnySync, AnySync)>,
+    // source objects whose loaded copy is being made right now
+    copying: HashSet<PlainRef>,
 }
 
 pub struct ImporterMap<R> {
@@ -216,6 +218,7 @@ impl<'a, R, U> Importer<'a, R, U> {
             map: Default::default(),
             rcrefs: Default::default(),
             shared: Default::default(),
+            copying: Default::default(),
         }
     }
 }
@@ -358,12 +361,15 @@ impl<'a, R: Resolve, U: Updater> Cloner for Importer<'a, R, U> {
             return Ok(Ref::new(new_ref));
         }
         let obj = self.resolver.get(old)?;
+        // (reserve the number and record it before descending, as in clone_plainref: an image that is its
+        // own /SMask, a form listed in its own resources)
+        let promise = self.updater.promise::<T>();
+        let new = promise.get_inner();
+        self.map.insert(old.get_inner(), new);
         let clone = obj.deep_clone(self)?;
+        self.updater.fulfill(promise, clone)?;
 
-        let r = self.updater.create(clone)?;
-        self.map.insert(old.get_inner(), r.get_ref().get_inner());
-
-        Ok(r.get_ref())
+        Ok(Ref::new(new))
     }
     fn clone_plainref(&mut self, old: PlainRef) -> Result<PlainRef> {
         if let Some(&new_ref) = self.map.get(&old) {
@@ -383,16 +389,37 @@ impl<'a, R: Resolve, U: Updater> Cloner for Importer<'a, R, U> {
     fn clone_rcref<T: DeepClone + ObjectWrite + DataSize>(&mut self, old: &RcRef<T>) -> Result<RcRef<T>> {
         let old_ref = old.get_ref().get_inner();
         if let Some(&new_ref) = self.map.get(&old_ref) {
-            let arc = self.rcrefs.get(&new_ref).unwrap().clone().downcast()?;
+            if let Some(any) = self.rcrefs.get(&new_ref) {
+                return Ok(RcRef::new(new_ref, any.clone().downcast()?));
+            }
+            if self.copying.contains(&old_ref) {
+                // a loaded handle cannot point back at the object that is holding it
+                bail!("Recursive reference");
+            }
+            // already copied through a plain or lazy reference: the number is taken, what is missing
+            // is a loaded handle for it
+            self.copying.insert(old_ref);
+            let value = old.data().deep_clone(self);
+            self.copying.remove(&old_ref);
+            let arc = Shared::new(value?);
+            self.rcrefs.insert(new_ref, AnySync::new(arc.clone()));
             return Ok(RcRef::new(new_ref, arc));
         }
 
-        let new = old.data().deep_clone(self)?;
-        let new = self.updater.create::<T>(new)?;
-        self.rcrefs.insert(new.get_ref().get_inner(), AnySync::new(new.data().clone()));
-        self.map.insert(old_ref, new.get_ref().get_inner());
+        // (the number is reserved and recorded before descending, see clone_plainref)
+        let promise = self.updater.promise::<Primitive>();
+        let new_ref = promise.get_inner();
+        self.map.insert(old_ref, new_ref);
+        self.copying.insert(old_ref);
+        let value = old.data().deep_clone(self);
+        self.copying.remove(&old_ref);
+        let value = value?;
+        let primitive = value.to_primitive(self.updater)?;
+        self.updater.fulfill(promise, primitive)?;
+        let arc = Shared::new(value);
+        self.rcrefs.insert(new_ref, AnySync::new(arc.clone()));
 
-        Ok(new)
+        Ok(RcRef::new(new_ref, arc))
     }
     fn clone_shared<T: DeepClone>(&mut self, old: &Shared<T>) -> Result<Shared<T>> {
         let key = &**old as *const T as usize;
